@@ -34,14 +34,16 @@ Theorem bidi_uniform : forall e s x, pre e x ->
 Proof. exact bidi_lemma. Qed.
 Print Assumptions bidi_uniform.
 
-(* every rune with a script of its own (neither Common nor Inherited; Unknown included) has the script of its run, and a
-   run whose script differs from the rune before it starts a bidi run or starts at a strong rune or at a closing paired
-   delimiter.  PARTIAL with respect to Spec.script_ok: the statements about MATCHED brackets (brackets_ok, and neutrals_ok
-   restricted to matched closing delimiters) are evaluated on the implementation by the oracle but not proved here. *)
-Theorem script_uniform_partial : forall e s x, pre e x ->
-  exists runs, split_runs e s x = Ok runs /\ script_ok_weak (e_text e) (e_bidi e) x runs = true.
+(* (a) every rune with a script of its own (neither Common nor Inherited; Unknown included) has the script of its run;
+   (b) a closing paired delimiter matched by the stack discipline of UAX #24 (over the whole range: the stack survives
+       from one bidi run to the next) has the script of its opening delimiter's run when both lie in the same bidi run,
+       and the script of the first run of its own bidi run when the pair spans bidi runs;
+   (c) a run whose script differs from the script of the rune before it starts a bidi run, or starts at a strong rune,
+       or starts at a MATCHED closing delimiter: neutral characters never open a script run. *)
+Theorem script_uniform : forall e s x, pre e x ->
+  exists runs, split_runs e s x = Ok runs /\ script_ok (e_text e) (e_bidi e) x runs = true.
 Proof. exact script_lemma. Qed.
-Print Assumptions script_uniform_partial.
+Print Assumptions script_uniform.
 
 (* vertical text without a fixed orientation: every run is vertical with an orientation that all its runes share
    (under the run's script); otherwise the axis and orientation bits are the caller's *)
@@ -64,11 +66,11 @@ Theorem language_compatible : forall e s x, pre e x ->
 Proof. exact lang_lemma. Qed.
 Print Assumptions language_compatible.
 
-(* all of the above for the same result *)
-Theorem itemization_sound_partial : forall e s x, pre e x ->
-  exists runs, split_runs e s x = Ok runs /\ check_itemization_proved e x runs = true.
+(* all of the above for the same result: the whole specification that the oracle evaluates on the implementation *)
+Theorem itemization_sound : forall e s x, pre e x ->
+  exists runs, split_runs e s x = Ok runs /\ check_itemization e x runs = true.
 Proof. exact all_lemma. Qed.
-Print Assumptions itemization_sound_partial.
+Print Assumptions itemization_sound.
 
 (* outside "non-empty runs": the empty (or reversed) range returns the input as one run, Script = Common, language enforced *)
 Theorem split_empty_range : forall e s x, i_end x <= i_start x ->
@@ -95,6 +97,23 @@ Example ex_runs :
     (* the closing bracket is in a later bidi run than its opening bracket: the stack entry was re-attributed to Hebrew *)
     /\ (i_end r3, i_script r3, d_prog (i_dir r3)) = (5, ex_hebr, false)
     /\ check_itemization ex_env ex_in [r1; r2; r3] = true.
+Proof. do 3 eexists. split; [vm_compute; reflexivity|]. repeat split; vm_compute; reflexivity. Qed.
+(* the pair found by the specification's stack in that text: closing bracket 3, opening bracket 1 (another bidi run) *)
+Example ex_matches : delim_matches (e_text ex_env) ex_in = [(3, 1)].
+Proof. vm_compute. reflexivity. Qed.
+(* "a(א)b" as one bidi run: the matched closing bracket returns to the script of its opening bracket's run (Latin) and
+   is the only reason for the third run to start there (statements (b) and (c) of script_ok are not vacuous) *)
+Definition ex_env2 : env :=
+  mkEnv [mkObs ex_latn (-1) false [] [(-1, 1)]; mkObs SC_COMMON 0 false [] [(-1, 1)]; mkObs ex_hebr (-1) false [] [(-1, 1)];
+         mkObs SC_COMMON 1 false [] [(-1, 1)]; mkObs ex_latn (-1) false [] [(-1, 1)]]
+        None None (fun _ => true) (fun _ => 0) false.
+Example ex_runs2 :
+  exists r1 r2 r3, split_runs ex_env2 seg_zero ex_in = Ok [r1; r2; r3]
+    /\ (i_end r1, i_script r1) = (2, ex_latn) /\ (i_end r2, i_script r2) = (3, ex_hebr) /\ (i_end r3, i_script r3) = (5, ex_latn)
+    /\ delim_matches (e_text ex_env2) ex_in = [(3, 1)]
+    /\ script_ok (e_text ex_env2) None ex_in [r1; r2; r3] = true
+    (* without the pair, the third run would have no admissible reason to start at the bracket *)
+    /\ neutrals_ok (e_text ex_env2) (intervals_of None ex_in) [] [r1; r2; r3] = false.
 Proof. do 3 eexists. split; [vm_compute; reflexivity|]. repeat split; vm_compute; reflexivity. Qed.
 Example ex_empty : i_end (set_end ex_in 0) <= i_start (set_end ex_in 0).
 Proof. cbn. lia. Qed.
